@@ -194,9 +194,9 @@ const U_NINE: [u8; 32] = {
     a[0] = 9;
     a
 };
-//@h name=c10_l4_real_ladder_u0 tier=thorough mode=func timeout=7200 desc="CONCRETE anchor through the real curve25519-dalek ladder (no stub): DH with the small-order point u = 0 is rejected" bounds="one concrete scalar, one concrete point"
+//@h name=c10_l4_real_ladder_u0 tier=thorough mode=func slots=2 timeout=7200 desc="CONCRETE anchor through the real curve25519-dalek ladder (no stub): DH with the small-order point u = 0 is rejected" bounds="one concrete scalar, one concrete point"
 real_ladder_anchor!(c10_l4_real_ladder_u0, U_ZERO, true);
-//@h name=c10_l4_real_ladder_u1 tier=thorough mode=func timeout=7200 desc="CONCRETE anchor through the real ladder: DH with the small-order point u = 1 is rejected" bounds="one concrete scalar, one concrete point"
+//@h name=c10_l4_real_ladder_u1 tier=thorough mode=func slots=2 timeout=7200 desc="CONCRETE anchor through the real ladder: DH with the small-order point u = 1 is rejected" bounds="one concrete scalar, one concrete point"
 real_ladder_anchor!(c10_l4_real_ladder_u1, U_ONE, true);
-//@h name=c10_l4_real_ladder_u9 tier=thorough mode=func timeout=7200 desc="CONCRETE anchor through the real ladder: DH with the base point u = 9 (not small order) is NOT rejected" bounds="one concrete scalar, one concrete point"
+//@h name=c10_l4_real_ladder_u9 tier=thorough mode=func slots=2 timeout=7200 desc="CONCRETE anchor through the real ladder: DH with the base point u = 9 (not small order) is NOT rejected" bounds="one concrete scalar, one concrete point"
 real_ladder_anchor!(c10_l4_real_ladder_u9, U_NINE, false);
